@@ -105,8 +105,8 @@ class C18(World):
         if self.tier == "thorough" and sw.random() < 0.3:
             swarm["length"] = sw.choice([24, 40])
 
-        def gen_solve():
-            fl = args.choice(MAINSTREAM) if swarm["mainstream"] else args.choice(fluids())
+        def gen_solve(fl_override=None):
+            fl = fl_override or (args.choice(MAINSTREAM) if swarm["mainstream"] else args.choice(fluids()))
             lim = limits(fl)
             if lim is None:
                 fl = "R134a"
@@ -156,11 +156,18 @@ class C18(World):
             return dict(op="solve", ihx=(float(args.choice([5, 10, 40])) if args.random() < 0.12 else 0.0), refrigerant=fl, Te=round(te - 273.15, 2), Tc=round(tcnd - 273.15, 2), dT_sh=dsh, dT_sc=dsc, eta=float(args.choice([1.0, 0.9, 0.7, 0.7, 0.5, round(args.uniform(0.2, 1.0), 3)])), Q=args.choice([1.0, 100.0, 2500.0, 100, 7.25, 2.0e-5, 1.0e-3]))
 
         steps = []
+        state_set = {}
         solved = [False] * swarm["objects"]
         for i in range(swarm["length"]):
             o = sched.randrange(swarm["objects"])
             if not solved[o]:
-                st = gen_solve()
+                if state_set.get(o) and args.random() < 0.6:
+                    # right after `cycle.state = <fluid>`: solve with refrigerant=None, i.e. on the fluid just installed
+                    st = gen_solve(fl_override=state_set[o])
+                    st["refrigerant_none"] = True
+                else:
+                    st = gen_solve()
+                state_set[o] = None
                 solved[o] = True
             else:
                 w = swarm["w_build"]
@@ -189,6 +196,7 @@ class C18(World):
                 elif op == "set_state":
                     st = dict(op=op, v=args.choice(["Ammonia", "Water", "n-Propane", "R134a"]))
                     solved[o] = False
+                    state_set[o] = st["v"]
                 else:
                     st = dict(op=op)
             st["client"] = o
@@ -462,9 +470,9 @@ class C18(World):
                     else:
                         a["Te"] = round(lim[0] - 273.15 - 40.0, 2)
                 ref = a["refrigerant"]
-                if st.get("refrigerant_none") and m["solved"] and m["args"]["refrigerant"]:
+                if st.get("refrigerant_none") and m.get("fluid"):
                     ref = None
-                    a["refrigerant"] = m["args"]["refrigerant"]
+                    a["refrigerant"] = m["fluid"]  # the fluid currently installed on the object (last solve or `state` assignment)
                     probe("resolve_with_refrigerant_none")
                 was = m["solved"]
                 try:
@@ -477,7 +485,7 @@ class C18(World):
                 if ok:
                     if was:
                         probe("re_solve")
-                    m.update(solved=True, args=a, first={}, pattern=[], metrics=None, n_cond=None, n_evap=None)
+                    m.update(solved=True, args=a, first={}, pattern=[], metrics=None, n_cond=None, n_evap=None, fluid=a["refrigerant"])
                     lim = limits(a["refrigerant"])
                     in_domain = lim is not None and lim[0] + 5.0 - 0.011 <= a["Te"] + 273.15 and a["Tc"] + 273.15 <= lim[1] - 10.0 + 0.011 and a["Tc"] - a["Te"] >= a["dT_sh"] + a["dT_sc"] + 2.0 + (12.0 if is_blend(a["refrigerant"]) else 0.0) - 1e-9 and op in ("solve", "solve_variant")
                     if in_domain:
@@ -501,6 +509,8 @@ class C18(World):
                         m["metrics"] = read_metrics(c)
                         outcome = "ok:" + prng.digest([repr(x) for x in m["metrics"]["Hs"]])
                 else:
+                    if ref is not None:
+                        m["fluid"] = ref  # the working fluid is installed before anything can fail
                     # a failed solve must leave the object unsolved or self-consistent
                     try:
                         cur = read_metrics(c)
@@ -553,6 +563,8 @@ class C18(World):
                 except Exception as e:
                     outcome = "raise:" + type(e).__name__
                 m.update(solved=False, metrics=None, first={}, pattern=[], judged=False)
+                if outcome == "ok":
+                    m["fluid"] = st["v"]
                 probe("state_assigned_between_solves")
             elif op == "set_system":
                 c.system = st["v"]  # plotting unit system: must not touch the solved state
